@@ -51,9 +51,10 @@ Section Group.
     (key = "name" /\ scalar_with_tag v strTag = true /\ n_value v <> "") \/
     ((key = "interval" \/ key = "query_offset") /\ scalar_with_tag v strTag = true /\ dur_ok (n_value v) = true) \/
     (key = "limit" /\ scalar_with_tag v intTag = true /\ int_ok v = true) \/
-    (key = "labels" /\ n_tag v = mapTag /\ validate_string_map "labels" (mapping_nodes (deref v)) 0 (0, 0) = None /\
+    (key = "labels" /\ n_tag v = mapTag /\ kind_mismatch v KMapping = false /\
+     validate_string_map "labels" (mapping_nodes (deref v)) 0 (0, 0) = None /\
      bad_group_label lname_ok lvalue_ok (mapping_nodes (deref v)) = None) \/
-    (key = "rules" /\ is_tag (n_tag v) seqTag = true).
+    (key = "rules" /\ kind_mismatch v KSequence = false).
 
   Ltac brk H :=
     match type of H with
@@ -220,6 +221,12 @@ Section Group.
     intros _ H. unfold unpack_nodes. apply unpack_loop_plain. intros c Hc. exact (plain_not_merge c (H c Hc)).
   Qed.
 
+  Lemma km_of_kind x k : n_alias x = None -> n_kind x = k -> kind_mismatch x k = false.
+  Proof.
+    intros Ha K. unfold kind_mismatch. rewrite Ha, K. destruct ((n_tag x =? nullTag) && kind_eqb k KScalar)%bool; [reflexivity|].
+    apply negb_false_iff. now apply kind_eqb_eq.
+  Qed.
+
   Theorem group_sound gn :
     group_guard gn ->
     let g := PG lines gn in
@@ -232,10 +239,10 @@ Section Group.
     intros Hp g Hge Hrules. pose proof (proj1 Hp) as Hgn.
     unfold g, parse_group in *. clear g.
     destruct (negb (is_tag (n_tag gn) mapTag) || kind_mismatch gn KMapping)%bool eqn:Et; [discriminate Hge|].
-    apply orb_false_iff in Et. destruct Et as [Et _]. apply negb_false_iff in Et.
-    destruct (n_kind gn) eqn:K; try (destruct Hgn as [_ X]; rewrite K in X; contradiction).
-    - (* sequence: tag !!seq is not accepted *)
-      destruct Hgn as [_ X]. rewrite K in X. destruct X as (T & _). rewrite T in Et. discriminate.
+    apply orb_false_iff in Et. destruct Et as [Et Ekm]. apply negb_false_iff in Et.
+    destruct (n_kind gn) eqn:K; try (destruct Hgn as (_ & _ & X); rewrite K in X; contradiction).
+    - (* sequence: refused by kindMismatch *)
+      exfalso. destruct (km_plain gn KMapping (proj1 Hgn) Ekm) as [X|[X _]]; congruence.
     - (* mapping *)
       right. set (ps := mapping_nodes gn) in *.
       assert (Hna : forall kv, In kv ps -> n_alias (fst kv) = None).
@@ -270,10 +277,9 @@ Section Group.
         destruct (proj2 Hp kr vr Hin) as (_ & Hrg & _). destruct (Hrg Ek) as [Hv Hitems].
         unfold group_pair_ok in Hok. rewrite (node_value_noalias kr (Hna (kr, vr) Hin)), Ek in Hok.
         destruct Hok as [(E & _)|[([E|E] & _)|[(E & _)|[(E & _)|(_ & Ht)]]]]; try discriminate E.
-        destruct (is_tag_true _ _ Ht) as [T|T].
-        - exists []. right. split; [|reflexivity].
-          apply (dec_slice_null null_ok H_null); auto. apply plain_str_scalar; auto.
-        - pose proof (plain_seq_tag vr Hv T) as Kv. unfold dec_slice. rewrite (deref_plain vr (proj1 Hv)), Kv.
+        destruct (km_plain vr KSequence (proj1 Hv) Ht) as [Kv|[Kv T]].
+        2:{ exists []. right. split; [|reflexivity]. apply (dec_slice_null null_ok H_null); auto. }
+        - unfold dec_slice. rewrite (deref_plain vr (proj1 Hv)), Kv.
           destruct (dec_items_ok (dec_rule str_ok null_ok dur_ok) rule_ok_prom (n_content vr)) as (prs & E1 & E2).
           { intros rn Hrn. pose proof (Hitems rn Hrn) as Hprn.
             assert (Hr : In (PRS lines rn) (g_rules G)).
@@ -292,16 +298,17 @@ Section Group.
         destruct Hlf as (vt & Hsee & Hpv). destruct (sees_deref vl vt Hsee) as [Dv Av]. pose proof (sees_tag vl vt Hsee) as Tv.
         pose proof (plain_self vt Hpv) as Hv.
         unfold group_pair_ok in Hok. rewrite (node_value_noalias kl (Hna (kl, vl) Hin)), Ek in Hok.
-        destruct Hok as [(E & _)|[([E|E] & _)|[(E & _)|[(_ & T & Hval & Hbad)|(E & _)]]]]; try discriminate E.
+        destruct Hok as [(E & _)|[([E|E] & _)|[(E & _)|[(_ & T & Hkm & Hval & Hbad)|(E & _)]]]]; try discriminate E.
+        assert (Kv : n_kind vt = KMapping).
+        { destruct (km_cases vl KMapping Hkm) as [X|[_ X]]; rewrite Dv in X; [exact X|]. rewrite <- Tv, T in X. discriminate X. }
         rewrite Tv in T. rewrite Dv in Hval, Hbad.
         rewrite (dec_strmap_deref str_ok null_ok vl) by (now rewrite Dv). rewrite Dv.
-        clear Dv Tv Hsee. rename vl into vl0. rename vt into vl.
-        pose proof (plain_map_tag vl Hv T) as Kv.
+        clear Dv Tv Hsee Hkm. rename vl into vl0. rename vt into vl.
         assert (Hne : forall k v, In (k, v) (mapping_nodes vl) -> n_value k <> "").
         { intros k v Hkv E. destruct (bad_group_label_none _ Hbad k v Hkv) as (L1 & _). rewrite E in L1. congruence. }
-        assert (Ht : is_tag (n_tag vl) mapTag = true) by (rewrite T; reflexivity).
-        destruct (strmap_of_validated str_ok null_ok H_str H_null "labels" vl 0 (0, 0) (or_introl Hpv) Ht Hval Hne) as [[T' _]|[_ E]].
-        { rewrite T in T'. discriminate. }
+        assert (Ht : kind_mismatch vl KMapping = false) by (exact (km_of_kind vl KMapping (proj1 Hv) Kv)).
+        destruct (strmap_of_validated str_ok null_ok H_str H_null "labels" vl 0 (0, 0) (or_introl Hpv) Ht Hval Hne) as [[K' _]|[_ E]].
+        { rewrite Kv in K'. discriminate. }
         exists (pairs_text (mapping_nodes vl)). split; [exact E|].
         apply forallb_forall. intros [a0 b0] Hab. unfold pairs_text in Hab. apply in_map_iff in Hab.
         destruct Hab as ([kk vv] & E0 & Hkv). inversion E0; subst a0 b0.
@@ -322,7 +329,7 @@ Section Group.
         assert (Hsc : forall tag, scalar_with_tag x tag = true -> n_kind x = KScalar /\ n_tag x = tag).
         { intros tag Hs. unfold scalar_with_tag in Hs. apply andb_true_iff in Hs. destruct Hs as [A B].
           split; [now apply kind_eqb_eq|now apply String.eqb_eq]. }
-        destruct Hok as [(E & Hs & Hne)|[([E|E] & Hs & Hd)|[(E & Hs & Hi)|[(E & T & Hval & Hbad)|(E & Ht)]]]]; rewrite E in Herr; cbn in Herr;
+        destruct Hok as [(E & Hs & Hne)|[([E|E] & Hs & Hd)|[(E & Hs & Hi)|[(E & T & Hkm & Hval & Hbad)|(E & Ht)]]]]; rewrite E in Herr; cbn in Herr;
           try (assert (Hx : n_kind x = KScalar -> plain_node x) by (apply Hx'; rewrite E; discriminate)).
         - destruct (Hsc _ Hs) as [Kx Tx]. specialize (Hx Kx).
           rewrite (dec_string_scalar str_ok null_ok H_str H_null x Hx Kx), Tx in Herr. cbn in Herr. discriminate.
@@ -366,8 +373,8 @@ Section Group.
       + destruct (find_key "rules" ps) as [[kr vr]|]; cbn [option_map snd dval]; [|reflexivity].
         destruct HR as (prs & [(Er & Hv)|(Er & _)]); rewrite Er; cbn [dval]; [exact Hv|reflexivity].
     - (* null scalar: dropped by Prometheus, an unnamed empty group for pint *)
-      left. pose proof Hgn as Hgn'. destruct Hgn as [Ha X]. rewrite K in X. destruct X as (C & Nm & _).
-      assert (T : n_tag gn = nullTag) by (destruct (is_tag_true _ _ Et); [assumption|contradiction]).
+      left. pose proof Hgn as Hgn'. destruct Hgn as (Ha & _ & C). rewrite K in C.
+      assert (T : n_tag gn = nullTag) by (destruct (km_plain gn KMapping Ha Ekm) as [X|[_ X]]; [congruence|exact X]).
       split.
       + unfold dec_group. rewrite (dec_fields_null str_ok null_ok H_null _ gn Hgn' K T). reflexivity.
       + unfold mapping_nodes. rewrite C. reflexivity.
@@ -495,12 +502,12 @@ Section Doc.
     { unfold unpack_nodes. rewrite Cd. apply unpack_loop_plain. intros c [<-|[]]. exact (plain_not_merge root Hroot). }
     rewrite Hu in PGs. cbn [groups_of_roots] in PGs.
     destruct (negb (is_tag (n_tag root) mapTag) || kind_mismatch root KMapping)%bool eqn:Et; [discriminate PGs|].
-    apply orb_false_iff in Et. destruct Et as [Et _]. apply negb_false_iff in Et.
+    apply orb_false_iff in Et. destruct Et as [Et Ekm]. apply negb_false_iff in Et.
     destruct (groups_of_entries plines metric_ok lname_ok lvalue_ok dur_ok int_ok false L (mapping_nodes root) false [] [])
       as [e|[n1 a1]] eqn:GE; [discriminate PGs|]. inversion PGs; subst a1. clear PGs.
     unfold prom_accepts, load_doc. rewrite Cd.
-    destruct (n_kind root) eqn:K; try (destruct Hroot as [_ X]; rewrite K in X; contradiction).
-    - destruct Hroot as [_ X]. rewrite K in X. destruct X as (T & _). rewrite T in Et. discriminate.
+    destruct (n_kind root) eqn:K; try (destruct Hroot as (_ & _ & X); rewrite K in X; contradiction).
+    - exfalso. destruct (km_plain root KMapping (proj1 Hroot) Ekm) as [X|[X _]]; congruence.
     - (* mapping *)
       set (ps := mapping_nodes root) in *.
       destruct ps as [|[k v] rest] eqn:Eps.
@@ -513,7 +520,7 @@ Section Doc.
         destruct (negb (n_tag k =? strTag)) eqn:E1; [discriminate GE|].
         destruct (negb (node_value k =? "groups")) eqn:E2; [discriminate GE|]. apply negb_false_iff, String.eqb_eq in E2.
         destruct (negb (is_tag (n_tag v) seqTag) || kind_mismatch v KSequence)%bool eqn:E3; [discriminate GE|].
-        apply orb_false_iff in E3. destruct E3 as [E3 _]. apply negb_false_iff in E3.
+        apply orb_false_iff in E3. destruct E3 as [_ E3].
         destruct (groups_of_seq plines metric_ok lname_ok lvalue_ok dur_ok int_ok false L (unpack_nodes v) [] []) as [e|[n2 a2]] eqn:GS; [discriminate GE|].
         pose proof (groups_of_entries_true _ _ _ _ _ _ _ _ _ _ _ _ GE) as Hrest. subst rest.
         cbn [groups_of_entries] in GE. inversion GE; subst n1 gs. clear GE.
@@ -532,9 +539,9 @@ Section Doc.
           - intros fields Ef s0 Hs. inversion Ef; subst fields. cbn [map] in Hs. destruct Hs as [<-|[]].
             change (key_text (k, v)) with (n_value k). rewrite E2. left. reflexivity. }
         rewrite Hd. cbn [look assoc String.eqb Ascii.eqb Bool.eqb].
-        destruct (is_tag_true _ _ E3) as [T|T]; [|unfold dec_slice; rewrite (deref_plain v (proj1 Hv))].
-        * rewrite (dec_slice_null null_ok H_null _ v Hv (plain_str_scalar v Hv (or_intror T)) T). reflexivity.
-        * pose proof (plain_seq_tag v Hv T) as Kv. rewrite Kv.
+        destruct (km_plain v KSequence (proj1 Hv) E3) as [Kv|[Kv T]]; [unfold dec_slice; rewrite (deref_plain v (proj1 Hv))|].
+        2:{ rewrite (dec_slice_null null_ok H_null _ v Hv Kv T). reflexivity. }
+        * rewrite Kv.
           rewrite (unpack_items v Hv (fun c Hc => proj1 (Hgroups c Hc))) in GS.
           pose proof (groups_of_seq_spec _ _ _ _ _ _ _ _ _ _ _ _ GS) as Ha2. cbn [app] in Ha2.
           destruct (groups_seq_sound plines metric_ok lname_ok lvalue_ok dur_ok expr_ok tmpl_pint tmpl_prom dur_zero str_ok int_ok null_ok
@@ -542,8 +549,8 @@ Section Doc.
           { intros gn Hgn. apply Hgs. rewrite Ha2. apply in_map. exact Hgn. }
           rewrite E1'. exact E2'.
     - (* null document root *)
-      pose proof Hroot as Hroot'. destruct Hroot as [Ha X]. rewrite K in X. destruct X as (C & Nm & _).
-      assert (T : n_tag root = nullTag) by (destruct (is_tag_true _ _ Et); [assumption|contradiction]).
+      pose proof Hroot as Hroot'. destruct Hroot as (Ha & _ & C). rewrite K in C.
+      assert (T : n_tag root = nullTag) by (destruct (km_plain root KMapping Ha Ekm) as [X|[_ X]]; [congruence|exact X]).
       rewrite (dec_fields_null str_ok null_ok H_null _ root Hroot' K T). reflexivity.
   Qed.
 
